@@ -34,8 +34,8 @@ func VerifDistKeyShare(d PDKGInterface, groupId string) *DistKeyShare {
 }
 
 // VerifMergeErrors exposes the session's error fan-in.
-func VerifMergeErrors(logger log.Logger, sessionID string, cs ...chan error) chan error {
-	return mergeErrors(logger, sessionID, cs...)
+func VerifMergeErrors(ctx context.Context, logger log.Logger, sessionID string, cs ...chan error) chan error {
+	return mergeErrors(ctx, logger, sessionID, cs...)
 }
 
 // VerifFanOut exposes fanOut.
